@@ -147,7 +147,13 @@ class Block(Entity):
         tags = self._h5group.open_group("tags")
         if name in tags:
             raise exceptions.DuplicateName("create_tag")
-        tag = Tag.create_new(self.file, self, tags, name, type_, position)
+        try:
+            tag = Tag.create_new(self.file, self, tags, name, type_, position)
+        except Exception:
+            # do not leave a tag without position behind
+            if name in tags:
+                tags.delete(name)
+            raise
         return tag
 
     # Source
@@ -250,12 +256,18 @@ class Block(Entity):
             raise exceptions.DuplicateName("create_data_array")
         if compression == Compression.Auto:
             compression = self._compr
-        da = DataArray.create_new(self.file, self, data_arrays, name, array_type,
-                                  dtype, shape, compression)
-        if data is not None:
-            da.write_direct(data)
-        da.unit = unit
-        da.label = label
+        try:
+            da = DataArray.create_new(self.file, self, data_arrays, name, array_type,
+                                      dtype, shape, compression)
+            if data is not None:
+                da.write_direct(data)
+            da.unit = unit
+            da.label = label
+        except Exception:
+            # do not leave a half-initialised array behind
+            if name in data_arrays:
+                data_arrays.delete(name)
+            raise
         return da
 
     def create_data_frame(self, name="", type_="", col_dict=None,
@@ -356,17 +368,23 @@ class Block(Entity):
             dt_arr = list(col_dict.items())
             col_dtype = np.dtype(dt_arr)
 
-        df = DataFrame.create_new(self.file, self, data_frames, name,
-                                  type_, shape, col_dtype, compression)
+        try:
+            df = DataFrame.create_new(self.file, self, data_frames, name,
+                                      type_, shape, col_dtype, compression)
 
-        if data is not None:
-            if type(data[0]) == np.void:
-                data = np.ascontiguousarray(data, dtype=col_dtype)
-                df.write_direct(data)
-            else:
-                data = list(map(tuple, data))
-                arr = np.ascontiguousarray(data, dtype=col_dtype)
-                df.write_direct(arr)
+            if data is not None:
+                if type(data[0]) == np.void:
+                    data = np.ascontiguousarray(data, dtype=col_dtype)
+                    df.write_direct(data)
+                else:
+                    data = list(map(tuple, data))
+                    arr = np.ascontiguousarray(data, dtype=col_dtype)
+                    df.write_direct(arr)
+        except Exception:
+            # do not leave a frame without (all of) its data behind
+            if name in data_frames:
+                data_frames.delete(name)
+            raise
         return df
 
     def find_sources(self, filtr=lambda _: True, limit=None):
